@@ -1,21 +1,25 @@
 #!/bin/bash
-# usage: confirm_seed.sh <seed dir with patch.diff, demo*, meta.json> <id>
-# Confirms in a fresh scratch worktree: suite passes with the patch, demo fails with it and passes without it.
-# Result is written to <seed dir>/confirm.json ; scratch worktree removed afterwards.
+# usage: confirm_seed.sh <seed dir with patch.diff, demo*, meta.json> <id> [patch override]
+# Confirms in a fresh scratch worktree of /repo HEAD: demo passes on the clean tree, patch applies and compiles,
+# demo fails with the patch, the full existing suite passes with the patch (269 passed, 0 failed).
+# The seed directory is copied to the same relative place (seeded_out/<k>/) so demos that locate helpers relative to
+# themselves keep working.  Result: <seed dir>/confirm.json ; the scratch worktree is removed afterwards.
 set -u
 src="$1"; id="$2"; patch="${3:-$1/patch.diff}"
+k=$(basename "$src")
 wt=/tmp/wt/confirm_$id
 git -C /repo worktree remove --force $wt 2>/dev/null
 git -C /repo worktree add -q --detach $wt HEAD || exit 2
 cd $wt
-demo=$(ls $src | grep -E '^demo' | head -1)
-cp $src/$demo $wt/$demo
-if [[ "$demo" == *test* ]]; then democmd="/venv/bin/python -m pytest -q -p no:cacheprovider $demo"; else democmd="/venv/bin/python $demo"; fi
-PYTHONPATH=$wt timeout 1800 $democmd > demo_clean.log 2>&1; rc_clean=$?
-git apply $patch || { echo "{\"id\": \"$id\", \"applies\": false}" > $src/confirm.json; cd /; git -C /repo worktree remove --force $wt; exit 1; }
+mkdir -p seeded_out/$k
+for f in "$src"/*.py "$src"/*.json "$src"/*.cfg "$src"/*.txt; do [ -f "$f" ] && cp "$f" seeded_out/$k/; done
+demo=$(ls seeded_out/$k | grep -E '^demo.*\.py$' | head -1)
+if [[ "$demo" == *test* ]]; then democmd="/venv/bin/python -m pytest -q -p no:cacheprovider seeded_out/$k/$demo"; else democmd="/venv/bin/python seeded_out/$k/$demo"; fi
+PYTHONPATH=$wt timeout 2400 $democmd > demo_clean.log 2>&1; rc_clean=$?
+git apply "$patch" || { echo "{\"id\": \"$id\", \"applies\": false}" > $src/confirm.json; cd /; git -C /repo worktree remove --force $wt; exit 1; }
 /venv/bin/python -m compileall -q avocado_i2n > /dev/null 2>&1; rc_compile=$?
-PYTHONPATH=$wt timeout 1800 $democmd > demo_patched.log 2>&1; rc_patched=$?
-PYTHONPATH=$wt timeout 3600 /venv/bin/python -m pytest -q -p no:cacheprovider --timeout=1800 -n 8 selftests/isolation > suite.log 2>&1
+PYTHONPATH=$wt timeout 2400 $democmd > demo_patched.log 2>&1; rc_patched=$?
+PYTHONPATH=$wt timeout 5400 /venv/bin/python -m pytest -q -p no:cacheprovider --timeout=2400 -n ${CONFIRM_JOBS:-8} selftests/isolation > suite.log 2>&1
 summary=$(tail -1 suite.log)
 passed=$(echo "$summary" | grep -oE '[0-9]+ passed' | grep -oE '[0-9]+')
 failed=$(echo "$summary" | grep -oE '[0-9]+ failed' | grep -oE '[0-9]+')
@@ -26,5 +30,6 @@ cat > $src/confirm.json <<J
  "confirmed": $([ $rc_clean -eq 0 ] && [ $rc_patched -ne 0 ] && [ "${passed:-0}" = "269" ] && [ -z "${failed:-}" ] && echo true || echo false)}
 J
 tail -5 demo_patched.log > $src/demo_patched_tail.log
+tail -5 demo_clean.log > $src/demo_clean_tail.log
 cd /; git -C /repo worktree remove --force $wt
 cat $src/confirm.json
